@@ -155,7 +155,8 @@ class _ExpressionConverter:
             ) = stack.pop()
 
             if isinstance(current_formula, NumericValue):
-                formula_value = Fraction(current_formula.value)
+                # the parser gives a float: str() is its shortest decimal notation, i.e. the literal that was read
+                formula_value = Fraction(str(current_formula.value))
                 if formula_value.denominator == 1:
                     result_stack.append(em.Int(formula_value.numerator))
                 else:
